@@ -105,12 +105,12 @@ theorem inv_eq_of_mem_of_key_eq {β : Type} : ∀ (l : List (Bytes × β)), (l.m
   | cons x xs ih =>
     intro hnd a b ha hb hk
     rw [List.map_cons, List.nodup_cons] at hnd
-    rcases List.mem_cons.mp ha with rfl | ha
-    · rcases List.mem_cons.mp hb with rfl | hb
-      · rfl
-      · exact absurd (hk ▸ List.mem_map.mpr ⟨b, hb, rfl⟩) hnd.1
-    · rcases List.mem_cons.mp hb with rfl | hb
-      · exact absurd (hk ▸ List.mem_map.mpr ⟨a, ha, rfl⟩ : b.1 ∈ xs.map Prod.fst) hnd.1
+    rcases List.mem_cons.mp ha with ha | ha
+    · rcases List.mem_cons.mp hb with hb | hb
+      · rw [ha, hb]
+      · exact absurd (by rw [← ha, hk]; exact List.mem_map.mpr ⟨b, hb, rfl⟩ : x.1 ∈ xs.map Prod.fst) hnd.1
+    · rcases List.mem_cons.mp hb with hb | hb
+      · exact absurd (by rw [← hb, ← hk]; exact List.mem_map.mpr ⟨a, ha, rfl⟩ : x.1 ∈ xs.map Prod.fst) hnd.1
       · exact ih hnd.2 a b ha hb hk
 
 /-- looking a key up in a map does not depend on the iteration order -/
@@ -123,14 +123,14 @@ theorem inv_find_perm {β : Type} (l₁ l₂ : List (Bytes × β)) (hp : l₁.Pe
     exact h2 x (hp.subset hx)
   | some a =>
     have ha := List.mem_of_find?_eq_some h2
-    have hak : (a.1 == k) = true := List.find?_some h2
+    have hak : (a.1 == k) = true := List.find?_some (p := fun kv : Bytes × β => kv.1 == k) h2
     cases h1 : l₁.find? (fun kv => kv.1 == k) with
     | none =>
       rw [List.find?_eq_none] at h1
       exact absurd hak (h1 a (hp.symm.subset ha))
     | some b =>
       have hb := List.mem_of_find?_eq_some h1
-      have hbk : (b.1 == k) = true := List.find?_some h1
+      have hbk : (b.1 == k) = true := List.find?_some (p := fun kv : Bytes × β => kv.1 == k) h1
       have : b = a := inv_eq_of_mem_of_key_eq l₂ hnd b a (hp.subset hb) ha
         (by rw [eq_of_beq hbk, eq_of_beq hak])
       rw [this]
@@ -270,7 +270,7 @@ theorem inv_isCacheable (env : Env) (e e' : Exchange) (hc : CanonHeaders e.respH
 theorem inv_verifyPayload (env : Env) (e e' : Exchange) (hc : CanonHeaders e.respHeaders) (hrb : ReadBack e e')
     (s : Signature) : verifyPayload env e' s = verifyPayload env e s := by
   unfold verifyPayload
-  rw [hrb.version, hrb.payload, inv_joined_readBack _ _ hc hrb.resp]
+  simp only [hrb.version, hrb.payload, inv_joined_readBack _ _ hc hrb.resp]
 
 /-- everything `Acceptable` reads from the exchange -/
 structure SameView (env : Env) (e e' : Exchange) : Prop where
@@ -356,5 +356,310 @@ theorem verify_read_write (env : Env) (e : Exchange) (out : Bytes) (t : GoTime.T
     ∃ e', read env.url out = .ok e' ∧ verify env e' t = verify env e t := by
   obtain ⟨e', hr, h1, h2, h3, h4, h5, h6, h7, h8⟩ := read_write env.url e out hd hw
   exact ⟨e', hr, verify_readBack env e e' t hc1 hb3 ⟨h1, h2, h3, h4, h5, h6, h7, h8⟩⟩
+
+
+/-! ## (B) an honestly signed exchange verifies -/
+
+/-! ### `Header.Add` followed by `Header.Values` -/
+
+/-- the update `Header.Add` applies to the stored fields when the name is present -/
+def inv_addAt (ck v : Bytes) (x : Bytes × List Bytes) : Bytes × List Bytes :=
+  if x.1 == ck then (x.1, x.2 ++ [v]) else (x.1, x.2)
+
+theorem inv_addAt_key (ck v : Bytes) (x : Bytes × List Bytes) : (inv_addAt ck v x).1 = x.1 := by
+  unfold inv_addAt
+  cases x.1 == ck <;> rfl
+
+theorem inv_add_eq (h : Headers) (k v : Bytes) :
+    add h k v = if h.any (fun x => x.1 == canonicalKey k) = true then h.map (inv_addAt (canonicalKey k) v)
+      else h ++ [(canonicalKey k, [v])] := rfl
+
+theorem inv_find_addAt (ck v ck' : Bytes) (h : Headers) :
+    (h.map (inv_addAt ck v)).find? (fun x => x.1 == ck') =
+      (h.find? (fun x => x.1 == ck')).map (inv_addAt ck v) := by
+  have : ((fun x : Bytes × List Bytes => x.1 == ck') ∘ inv_addAt ck v) = (fun x => x.1 == ck') := by
+    funext x
+    simp only [Function.comp, inv_addAt_key]
+  rw [List.find?_map, this]
+
+theorem inv_find_none_of_any_false (h : Headers) (ck : Bytes) (hn : ¬ h.any (fun x => x.1 == ck) = true) :
+    h.find? (fun x => x.1 == ck) = none := by
+  rw [List.find?_eq_none]
+  intro x hx hxk
+  exact hn (List.any_eq_true.mpr ⟨x, hx, hxk⟩)
+
+/-- `Header.Add(k, v)` appends `v` to `Header.Values(k)` -/
+theorem inv_values_add_same (h : Headers) (k v : Bytes) : values (add h k v) k = values h k ++ [v] := by
+  rw [inv_add_eq]
+  unfold values
+  by_cases hany : h.any (fun x => x.1 == canonicalKey k) = true
+  · rw [if_pos hany, inv_find_addAt]
+    cases hf : h.find? (fun x => x.1 == canonicalKey k) with
+    | none =>
+      rw [List.find?_eq_none] at hf
+      obtain ⟨x, hx, hxk⟩ := List.any_eq_true.mp hany
+      exact absurd hxk (hf x hx)
+    | some x =>
+      have hxk : (x.1 == canonicalKey k) = true := List.find?_some (p := fun x : Bytes × List Bytes => x.1 == canonicalKey k) hf
+      obtain ⟨n, vs⟩ := x
+      simp only [Option.map_some, inv_addAt, hxk, if_true]
+  · rw [if_neg hany, List.find?_append, inv_find_none_of_any_false h _ hany]
+    simp only [Option.none_or, List.find?_cons, beq_self_eq_true, List.nil_append]
+
+/-- ... and leaves `Header.Values` of every other name alone -/
+theorem inv_values_add_other (h : Headers) (k v k' : Bytes) (hne : canonicalKey k ≠ canonicalKey k') :
+    values (add h k v) k' = values h k' := by
+  rw [inv_add_eq]
+  unfold values
+  by_cases hany : h.any (fun x => x.1 == canonicalKey k) = true
+  · rw [if_pos hany, inv_find_addAt]
+    cases hf : h.find? (fun x => x.1 == canonicalKey k') with
+    | none => rfl
+    | some x =>
+      have hxk : (x.1 == canonicalKey k') = true := List.find?_some (p := fun x : Bytes × List Bytes => x.1 == canonicalKey k') hf
+      have hxne : (x.1 == canonicalKey k) = false := by
+        cases hh : x.1 == canonicalKey k with
+        | false => rfl
+        | true => exact absurd ((eq_of_beq hh).symm.trans (eq_of_beq hxk)) hne
+      obtain ⟨n, vs⟩ := x
+      simp only [Option.map_some, inv_addAt, hxne, Bool.false_eq_true, if_false]
+  · rw [if_neg hany, List.find?_append]
+    have : (((canonicalKey k, [v]) : Bytes × List Bytes).1 == canonicalKey k') = false := by
+      cases hh : canonicalKey k == canonicalKey k' with
+      | false => rfl
+      | true => exact absurd (eq_of_beq hh) hne
+    rw [List.find?_cons_of_neg (by simpa using this), List.find?_nil, Option.or_none]
+
+theorem inv_digestName_ne (enc : Mice.Enc) : canonicalKey hContentEncoding ≠ canonicalKey enc.digestHeaderName := by
+  cases enc <;> decide +kernel
+
+theorem inv_digest_ne_nil (H : Bytes → Bytes) (enc : Mice.Enc) (p : Bytes) (rs : Nat) : (Mice.encode H enc p rs).2 ≠ [] := by
+  unfold Mice.encode
+  by_cases h : enc = .draft03 ∧ p.length = 0
+  · rw [if_pos h]; cases enc <;> simp [Mice.formatDigestHeader, Mice.Enc.name]
+  · rw [if_neg h]; cases enc <;> simp [Mice.formatDigestHeader, Mice.Enc.name]
+
+/-! ### the three steps of the signer -/
+
+theorem honest_miEncodePayload_eq (H : Bytes → Bytes) (e0 e1 : Exchange) (rs : Nat) (h : miEncodePayload H e0 rs = some e1) :
+    e1 = { e0 with payload := (Mice.encode H e0.version.mice e0.payload rs).1,
+                   respHeaders := add (add e0.respHeaders hContentEncoding e0.version.mice.name)
+                     e0.version.mice.digestHeaderName (Mice.encode H e0.version.mice e0.payload rs).2 } := by
+  unfold miEncodePayload at h
+  by_cases hg : get e0.respHeaders e0.version.mice.digestHeaderName ≠ []
+  · simp only [hg, ne_eq, not_false_eq_true, if_true] at h
+    cases h
+  · simp only [hg, if_false] at h
+    injection h with h
+    exact h.symm
+
+/-- the digest header the verifier reads back is exactly the one `MiEncodePayload` added, provided the
+    response had no value under that name -/
+theorem honest_digest_joined (hs : Headers) (enc : Mice.Enc) (digest : Bytes) (hno : values hs enc.digestHeaderName = []) :
+    joined (add (add hs hContentEncoding enc.name) enc.digestHeaderName digest) enc.digestHeaderName = digest := by
+  unfold joined
+  rw [inv_values_add_same, inv_values_add_other _ _ _ _ (inv_digestName_ne enc), hno]
+  rfl
+
+/-- `verifyPayload` on the MI-encoded exchange returns the original payload -/
+theorem honest_payload_decodes (env : Env) (hlen : ∀ x, (env.H x).length = 32) (e0 e1 : Exchange) (rs : Nat)
+    (hrs : 1 ≤ rs) (hrs2 : rs ≤ 16384) (hmi : miEncodePayload env.H e0 rs = some e1)
+    (hno : values e0.respHeaders e0.version.mice.digestHeaderName = []) (s : Signature)
+    (hint : s.integrity = e0.version.mice.integrityIdentifier) :
+    verifyPayload env e1 s = some e0.payload := by
+  have he1 := honest_miEncodePayload_eq env.H e0 e1 rs hmi
+  have hv : e1.version = e0.version := by rw [he1]
+  have hp : e1.payload = (Mice.encode env.H e0.version.mice e0.payload rs).1 := by rw [he1]
+  have hr : e1.respHeaders = add (add e0.respHeaders hContentEncoding e0.version.mice.name)
+      e0.version.mice.digestHeaderName (Mice.encode env.H e0.version.mice e0.payload rs).2 := by rw [he1]
+  unfold verifyPayload
+  simp only [hv, hp, hr, honest_digest_joined _ _ _ hno, hint, ne_eq, not_true_eq_false, if_false,
+    inv_digest_ne_nil]
+  rw [C14.decode_encode env.H hlen e0.version.mice e0.payload rs 16384 hrs hrs2 (by omega)]
+
+/-- the parameterised identifier `signatureHeaderValue` serializes -/
+def honestPI (v : Ver) (sig validityUrl certUrl certSha : Bytes) (date expires : Int) : SH.PI :=
+  { label := kLabel, params := [
+    (kSig, some (.bytes sig)), (kValidityUrl, some (.str validityUrl)), (kIntegrity, some (.str v.mice.integrityIdentifier)),
+    (kCertUrl, some (.str certUrl)), (kCertSha256, some (.bytes certSha)), (kDate, some (.int date)),
+    (kExpires, some (.int expires))] }
+
+theorem honest_normPI (v : Ver) (sig validityUrl certUrl certSha : Bytes) (date expires : Int) :
+    SH.normPI (honestPI v sig validityUrl certUrl certSha date expires) =
+      { label := kLabel, params := sigParamsSorted v sig validityUrl certUrl certSha date expires } := by
+  unfold SH.normPI SH.sortParams honestPI
+  simp only [sigParams_sort]
+
+/-- the Signature header the signer emits parses to one signature with the seven parameters (in key order) -/
+theorem honest_sigHeader_parses (v : Ver) (sig validityUrl certUrl certSha : Bytes) (date expires : Int) (hd : Bytes)
+    (hint : -(2:Int)^63 ≤ date ∧ date < (2:Int)^63 ∧ -(2:Int)^63 ≤ expires ∧ expires < (2:Int)^63)
+    (h : signatureHeaderValue v sig validityUrl certUrl certSha date expires = some hd) :
+    SH.parseParameterisedList hd =
+      some [{ label := kLabel, params := sigParamsSorted v sig validityUrl certUrl certSha date expires }] := by
+  have hpr : validityUrl.all (fun c => 32 ≤ c && c ≤ 126) = true ∧ certUrl.all (fun c => 32 ≤ c && c ≤ 126) = true := by
+    rw [signatureHeaderValue_eq] at h
+    by_cases hc : validityUrl.all (fun c => 32 ≤ c && c ≤ 126) = true ∧ certUrl.all (fun c => 32 ≤ c && c ≤ 126) = true
+    · exact hc
+    · rw [if_neg hc] at h; cases h
+  have hser : SH.serializePI (honestPI v sig validityUrl certUrl certSha date expires) = some hd := h
+  have hpl : SH.serializePL [honestPI v sig validityUrl certUrl certSha date expires] = some hd := by
+    unfold SH.serializePL
+    simp only [List.isEmpty_cons, Bool.false_eq_true, if_false, SH.mapM', hser, Option.map_some, SH.joinWith]
+  have hl : SH.isValidToken kLabel = true := by decide +kernel
+  have k1 : SH.isValidKey kCertSha256 = true := by decide +kernel
+  have k2 : SH.isValidKey kCertUrl = true := by decide +kernel
+  have k3 : SH.isValidKey kDate = true := by decide +kernel
+  have k4 : SH.isValidKey kExpires = true := by decide +kernel
+  have k5 : SH.isValidKey kIntegrity = true := by decide +kernel
+  have k6 : SH.isValidKey kSig = true := by decide +kernel
+  have k7 : SH.isValidKey kValidityUrl = true := by decide +kernel
+  have hvalid : SH.validPI (honestPI v sig validityUrl certUrl certSha date expires) = true := by
+    simp only [SH.validPI, honestPI, List.all_cons, List.all_nil, SH.validParam, SH.validItem, hl, k1, k2, k3, k4, k5, k6, k7,
+      hpr.1, hpr.2, integrity_printable, hint.1, hint.2.1, hint.2.2.1, hint.2.2.2, decide_true, Bool.and_self]
+  have hkeys : ((honestPI v sig validityUrl certUrl certSha date expires).params.map Prod.fst).Nodup := by
+    have : (honestPI v sig validityUrl certUrl certSha date expires).params.map Prod.fst =
+        [kSig, kValidityUrl, kIntegrity, kCertUrl, kCertSha256, kDate, kExpires] := rfl
+    rw [this]; decide +kernel
+  have := SH.parse_serialize_pl [honestPI v sig validityUrl certUrl certSha date expires] hd
+    (fun pi hpi => by rw [List.mem_singleton.mp hpi]; exact hvalid)
+    (fun pi hpi => by rw [List.mem_singleton.mp hpi]; exact hkeys) hpl
+  rw [this, List.map_cons, List.map_nil, honest_normPI]
+
+/-- `extractSignatureFields` on that signature -/
+theorem honest_extract (v : Ver) (sig validityUrl certUrl certSha : Bytes) (date expires : Int) :
+    extractSignature { label := kLabel, params := sigParamsSorted v sig validityUrl certUrl certSha date expires } =
+      some { label := kLabel, sig := sig, integrity := v.mice.integrityIdentifier, certUrl := certUrl,
+             certSha256 := certSha, validityUrl := validityUrl, date := date, expires := expires } := by
+  rfl
+
+theorem honest_addSignatureHeader_eq (e1 e2 : Exchange) (sig validityUrl certUrl certSha : Bytes) (date expires : Int)
+    (h : addSignatureHeader e1 sig validityUrl certUrl certSha date expires = some e2) :
+    ∃ hd, signatureHeaderValue e1.version sig validityUrl certUrl certSha date expires = some hd ∧
+      e2 = { e1 with sigHeader := hd } := by
+  unfold addSignatureHeader at h
+  cases hs : signatureHeaderValue e1.version sig validityUrl certUrl certSha date expires with
+  | none => simp only [hs] at h; cases h
+  | some hd =>
+    simp only [hs] at h
+    injection h with h
+    exact ⟨hd, rfl, h.symm⟩
+
+/-- replacing the Signature header does not change anything `Acceptable` reads -/
+theorem honest_sameView (env : Env) (e1 : Exchange) (hd : Bytes) : SameView env e1 { e1 with sigHeader := hd } :=
+  ⟨rfl, rfl, fun _ => rfl, fun _ _ _ _ => rfl, fun _ => rfl, rfl, rfl, rfl⟩
+
+/-! ### why `hnodigest` is there
+
+  `MiEncodePayload` only checks `Header.Get(digestName) == ""`.  A response that already carries the digest
+  header with one *empty* value passes that check, `Header.Add` then makes the field `["", digest]`, the
+  verifier reads `"," ++ digest`, whose algorithm part is not the MI name: the honestly signed exchange is
+  refused.  So `get … = []` (or a `CanonHeaders` assumption) is not enough for (B); `values … = []` is. -/
+
+theorem honest_digest_shape (H : Bytes → Bytes) (enc : Mice.Enc) (p : Bytes) (rs : Nat) :
+    ∃ b, (Mice.encode H enc p rs).2 = enc.name ++ 61 :: b := by
+  unfold Mice.encode
+  by_cases h : enc = .draft03 ∧ p.length = 0
+  · rw [if_pos h]; exact ⟨_, by simp only [Mice.formatDigestHeader, List.append_assoc, List.singleton_append]⟩
+  · rw [if_neg h]; exact ⟨_, by simp only [Mice.formatDigestHeader, List.append_assoc, List.singleton_append]⟩
+
+theorem honest_comma_digest_unparsable (enc : Mice.Enc) (b : Bytes) :
+    Mice.parseDigestHeader enc (44 :: (enc.name ++ 61 :: b)) = none := by
+  have hs : Mice.splitEq (44 :: (enc.name ++ 61 :: b)) = some (44 :: enc.name, b) := by
+    have := Mice.splitEq_append (44 :: enc.name) b (by
+      intro c hc
+      rcases List.mem_cons.mp hc with rfl | hc
+      · decide
+      · exact Mice.name_no_eq enc c hc)
+    rw [List.cons_append] at this
+    exact this
+  unfold Mice.parseDigestHeader
+  rw [hs]
+  have hne : (44 :: enc.name : Bytes) ≠ enc.name := by
+    intro h
+    have := congrArg List.length h
+    simp at this
+  simp only [hne, ne_eq, not_false_eq_true, if_true]
+
+/-- the statement of (B) without `hnodigest` is false: with an empty digest value already present
+    (`Header.Get = ""`, so `MiEncodePayload` goes ahead) every honestly signed exchange is refused -/
+theorem honest_refused_if_empty_digest_value (env : Env) (e0 e1 e2 : Exchange) (rs : Nat)
+    (sig validityUrl certUrl certSha : Bytes) (date expires : Int) (t : GoTime.T)
+    (hval : values e0.respHeaders e0.version.mice.digestHeaderName = [[]])
+    (hmi : miEncodePayload env.H e0 rs = some e1)
+    (hsign : addSignatureHeader e1 sig validityUrl certUrl certSha date expires = some e2) :
+    get e0.respHeaders e0.version.mice.digestHeaderName = [] ∧ verify env e2 t = none := by
+  refine ⟨by unfold get; rw [hval]; rfl, ?_⟩
+  have he1 := honest_miEncodePayload_eq env.H e0 e1 rs hmi
+  obtain ⟨hd, _, he2⟩ := honest_addSignatureHeader_eq e1 e2 sig validityUrl certUrl certSha date expires hsign
+  have hv : e2.version = e0.version := by rw [he2, he1]
+  have hr : e2.respHeaders = add (add e0.respHeaders hContentEncoding e0.version.mice.name)
+      e0.version.mice.digestHeaderName (Mice.encode env.H e0.version.mice e0.payload rs).2 := by rw [he2, he1]
+  obtain ⟨b, hb⟩ := honest_digest_shape env.H e0.version.mice e0.payload rs
+  have hj : joined e2.respHeaders e0.version.mice.digestHeaderName = 44 :: (e0.version.mice.name ++ 61 :: b) := by
+    rw [hr]
+    unfold joined
+    rw [inv_values_add_same, inv_values_add_other _ _ _ _ (inv_digestName_ne _), hval, hb]
+    rfl
+  have hpay : ∀ s, verifyPayload env e2 s = none := by
+    intro s
+    unfold verifyPayload
+    simp only [hv, hj]
+    by_cases hi : s.integrity ≠ e0.version.mice.integrityIdentifier
+    · rw [if_pos hi]
+    · rw [if_neg hi, if_neg (by simp)]
+      unfold Mice.decodeAll Mice.newDecoder
+      rw [honest_comma_digest_unparsable]
+  cases hver : verify env e2 t with
+  | none => rfl
+  | some p =>
+    obtain ⟨_, _, _, _, s, _, ha⟩ := verify_some env e2 t p hver
+    have := ha.payload
+    rw [hpay s] at this
+    cases this
+
+
+/-- **(B)** MI-encode the payload, sign the serialized message with the certificate's key, add the
+    Signature header: `Exchange.Verify` accepts the result and returns the original payload. -/
+theorem honest_verifies (env : Env) (hlen : ∀ x, (env.H x).length = 32)
+    (e0 e1 e2 : Exchange) (rs : Nat) (hrs : 1 ≤ rs) (hrs2 : rs ≤ 16384)
+    (sig validityUrl certUrl certBytes : Bytes) (main : CertChain.AugCert) (rest : List CertChain.AugCert)
+    (date expires : Int) (t : GoTime.T) (msg : Bytes)
+    (hmi : miEncodePayload env.H e0 rs = some e1)
+    (hmsg : signedMessage e1 (some (env.H main.cert)) validityUrl date expires = some msg)
+    (hsign : addSignatureHeader e1 sig validityUrl certUrl (env.H main.cert) date expires = some e2)
+    (hfetch : env.fetch certUrl = some certBytes) (hchain : CertChain.read env.parseOk certBytes = some (main :: rest))
+    (hkey : env.keyOk main.cert = true) (hsv : env.sigVerify main.cert msg sig = true)
+    (hurl : ∃ vu ru, env.url validityUrl = some vu ∧ env.url e0.uri = some ru ∧ sameOrigin vu ru = true)
+    (htime : timestampsOk
+        { label := kLabel, sig := sig, integrity := e0.version.mice.integrityIdentifier, certUrl := certUrl,
+          certSha256 := env.H main.cert, validityUrl := validityUrl, date := date, expires := expires } t = true)
+    (hint : -(2:Int)^63 ≤ date ∧ date < (2:Int)^63 ∧ -(2:Int)^63 ≤ expires ∧ expires < (2:Int)^63)
+    (hpolicy : headersOk e1 = true ∧ ((e0.version = .b1 ∨ e0.version = .b2) → (e0.method = mGET ∨ e0.method = mHEAD)) ∧
+       (e0.version = .b3 → isCacheable env e1 = true ∧ joined e1.respHeaders hContentType ≠ []))
+    (hnodigest : values e0.respHeaders e0.version.mice.digestHeaderName = [])
+    : verify env e2 t = some e0.payload := by
+  have he1 := honest_miEncodePayload_eq env.H e0 e1 rs hmi
+  have hv : e1.version = e0.version := by rw [he1]
+  have hu : e1.uri = e0.uri := by rw [he1]
+  have hm : e1.method = e0.method := by rw [he1]
+  obtain ⟨hd, hshv, he2⟩ := honest_addSignatureHeader_eq e1 e2 sig validityUrl certUrl (env.H main.cert) date expires hsign
+  rw [hv] at hshv
+  have hparse := honest_sigHeader_parses e0.version sig validityUrl certUrl (env.H main.cert) date expires hd hint hshv
+  have hsig2 : e2.sigHeader = hd := by rw [he2]
+  obtain ⟨vu, ru, hvu, hru, hso⟩ := hurl
+  have hacc1 : Acceptable env e1 t
+      { label := kLabel, sig := sig, integrity := e0.version.mice.integrityIdentifier, certUrl := certUrl,
+        certSha256 := env.H main.cert, validityUrl := validityUrl, date := date, expires := expires }
+      e0.payload := by
+    refine ⟨⟨vu, ru, hvu, by rw [hu]; exact hru, hso⟩, ⟨certBytes, main, rest, hfetch, hchain, hkey, rfl, msg, hmsg, hsv⟩,
+      htime, honest_payload_decodes env hlen e0 e1 rs hrs hrs2 hmi hnodigest _ rfl, ?_, ?_, ?_, hpolicy.1⟩
+    · rw [hv]; exact fun h3 => (hpolicy.2.2 h3).2
+    · rw [hv, hm]; exact hpolicy.2.1
+    · rw [hv]; exact fun h3 => (hpolicy.2.2 h3).1
+  have hacc2 := inv_acceptable_of_sameView env e1 e2 t _ _ (by rw [he2]; exact honest_sameView env e1 hd) hacc1
+  unfold verify
+  rw [hsig2, hparse]
+  simp only [List.findSome?_cons, List.findSome?_nil]
+  rw [(verifyOne_iff env e2 t _ e0.payload).mpr ⟨_, honest_extract _ _ _ _ _ _ _, hacc2⟩]
 
 end WebPkg.Sxg
